@@ -116,13 +116,19 @@ def run(ctx):
     seqs = [()] + [q for k in (1, 2, 3) for q in itertools.product(OPS, repeat=k)]
     nsamples = 6 if ctx.tier == 'quick' else 150
     ids = [('st', si, qi) for si in range(nsamples) for qi in range(len(seqs))]
+    # a large sample (tens of thousands of events, many channels) in the states reached by at most one operation
+    BIG = 1000
+    ids += [('st', BIG + b, qi) for b in range(1 if ctx.tier == 'quick' else 6) for qi in range(len(seqs)) if len(seqs[qi]) <= 1]
     cache = {}
     for cid, rng in ctx.cases(ids):
         _, si, qi = cid
         srng = np.random.default_rng([ctx.seed, 20, si])
         kind = ('int-be', 'int-le', 'float32', 'float64', 'int-nometa', 'int-handle')[si % 6]
+        if si >= BIG:
+            kind = 'int-be' if si % 2 == 0 else 'float32'
         if kind.startswith('int'):
-            spec = zoo.int_spec(srng, n=int(srng.integers(6, 30)), d=int(srng.integers(2, 5)))
+            spec = zoo.int_spec(srng, n=int(srng.integers(6, 30)) if si < BIG else int(srng.choice([65537, 100001])),
+                                d=int(srng.integers(2, 5)) if si < BIG else 8)
             spec['byteord'] = '4,3,2,1' if kind != 'int-le' else '1,2,3,4'
             if kind == 'int-nometa':
                 spec['png'] = spec['pnv'] = spec['pns'] = None
@@ -130,8 +136,8 @@ def run(ctx):
             if si % 7 == 6:
                 spec['analysis'] = [('AKEY', 'aval'), ('GATE', '1,2')]
         else:
-            spec = zoo.float_spec(srng, n=int(srng.integers(6, 30)), d=int(srng.integers(2, 5)),
-                                  dt='F' if kind == 'float32' else 'D')
+            spec = zoo.float_spec(srng, n=int(srng.integers(6, 30)) if si < BIG else int(srng.choice([65537, 100001])),
+                                  d=int(srng.integers(2, 5)) if si < BIG else 8, dt='F' if kind == 'float32' else 'D')
         if kind == 'int-handle':
             # a sample loaded from an open file object (infile is documented as "str or file-like")
             raw_, _lay = fcsgen.build(spec)
